@@ -23,6 +23,15 @@ New spec keys (all optional):
              (the decorator itself is translated separately or trusted: the spec says which)
   assert_fail    coq text of the result when `assert x is not None` fails (x a NAME of type O:T; the rest
              of the block runs with x : T)
+  try_calls  {callee: call spec | exact text of a call: (coq text, result type)}: calls that may raise an
+             Exception and are accepted ONLY as the single statement of `try: .. except Exception [as e]: H`
+             (H ending in return): see gx_try.  Their Coq form returns (result + EXC).
+  setattrs   {(type, attribute): (coq function, value type)}: `v.attr = e` on a LOCAL object v of an abstract
+             type -> let v := f v e in
+  inner_def  the function translated is the local function of that name defined directly inside the spec's
+             function (a decorator's wrapper), whose body must be: [docstring,] that def, `return <name>`;
+             its *args / **kwargs parameters are dropped (they may only be passed on in a try_call given by
+             its exact text)
   truthy     [types whose values are always truthy]: an Optional of such a type used as a condition is
              `is not None`
   (tuples)   `a, b = f(..)` for a call whose declared result is a spec["tuples"] type
@@ -251,6 +260,58 @@ def gx_coerce(self, text, ty, want, e, env):
     return None
 
 
+def gx_try(self, s, rest, env, fin, ind):
+    """try: <x = CALL | CALL | return CALL>  except Exception [as e]: H      (H ends in return)
+         ->  match CALL' with inl x => .. | inr e => H end
+    CALL is a call the spec lists under try_calls: its Coq form returns  (result + EXC)  — inr = it raised
+    an Exception, which the handler catches.  The exception value has the abstract type EXC."""
+    pad = "  " * ind
+    if s.orelse or s.finalbody or len(s.handlers) != 1 or len(s.body) != 1:
+        raise Unsupported("try shape")
+    h, b = s.handlers[0], s.body[0]
+    if not (isinstance(h.type, ast.Name) and h.type.id == "Exception") or "Exception" in env:
+        raise Unsupported("except clause")
+    if not h.body or not isinstance(h.body[-1], ast.Return):
+        raise Unsupported("an except handler that does not end in return")
+    if "EXC" not in self.types:
+        raise Unsupported("try_calls needs the type EXC")
+    target = None
+    if isinstance(b, ast.Assign) and len(b.targets) == 1 and isinstance(b.targets[0], ast.Name):
+        target, call, mode = b.targets[0].id, b.value, "assign"
+    elif isinstance(b, ast.Expr):
+        call, mode = b.value, "stmt"
+    elif isinstance(b, ast.Return) and b.value is not None and self.kind == "expr":
+        call, mode = b.value, "return"
+    else:
+        raise Unsupported("try body")
+    if not isinstance(call, ast.Call):
+        raise Unsupported("try body")
+    tc = self.spec["try_calls"]
+    if ast.unparse(call) in tc:
+        text, ret = tc[ast.unparse(call)]               # the whole call, by its exact text
+    elif ast.unparse(call.func) in tc and isinstance(tc[ast.unparse(call.func)], dict):
+        text, ret = self.apply_spec(tc[ast.unparse(call.func)], ast.unparse(call.func), call.args, call.keywords, env)
+    else:
+        raise Unsupported(f"try around {ast.unparse(call)[:50]}: not a declared try_call")
+    if self.loop_depth:
+        raise Unsupported("try inside a loop")
+    if mode == "assign":
+        env_ok = self.bind(env, target, ret)
+        ok = self.block(rest, env_ok, fin, ind + 1)
+        pat = cname(target)
+    elif mode == "stmt":
+        ok = self.block(rest, env, fin, ind + 1)
+        pat = "_"
+    else:
+        if ret != self.ret_type:
+            raise Unsupported("try: return of another type")
+        ok = "  " * (ind + 1) + fin(env, "return", "v_")
+        pat = "v_"
+    env_h = self.bind(env, h.name, "EXC") if h.name else env
+    hb = self.block(list(h.body), env_h, fin, ind + 1)
+    return f"{pad}match {text} with\n{pad}| inl {pat} =>\n{ok}\n{pad}| inr {cname(h.name) if h.name else '_'} =>\n{hb}\n{pad}end"
+
+
 def gx_stmt(self, s, rest, env, fin, ind):
     pad = "  " * ind
     if self.spec.get("skip_stmts") and ast.unparse(s) in self.spec["skip_stmts"]:
@@ -276,6 +337,22 @@ def gx_stmt(self, s, rest, env, fin, ind):
             env2 = self.bind(env2, x.id, xty)
         return (f"{pad}let '({', '.join(cname(x.id) for x in tg)}) := {t} in\n"
                 + self.block(rest, env2, fin, ind))
+    if isinstance(s, ast.Try) and self.spec.get("try_calls"):
+        return gx_try(self, s, rest, env, fin, ind)
+    if isinstance(s, ast.Assign) and len(s.targets) == 1 and isinstance(s.targets[0], ast.Attribute) \
+            and isinstance(s.targets[0].value, ast.Name) and s.targets[0].value.id in env \
+            and (env[s.targets[0].value.id], s.targets[0].attr) in self.spec.get("setattrs", {}):
+        # v.attr = e  on a LOCAL object of an abstract type (never a parameter: the caller would not see it)
+        v = s.targets[0].value.id
+        fn, vty = self.spec["setattrs"][(env[v], s.targets[0].attr)]
+        if v in self.pyargs or self.loop_depth:
+            raise Unsupported(f"store on {v}.{s.targets[0].attr}")
+        (t, _), hs = self.hoisted(s.value, env, lambda: self.expr(s.value, env, vty))
+        if hs:
+            raise Unsupported("attribute store from a call that must be hoisted")
+        ty = env[v]
+        env2 = self.bind(env, v, ty)
+        return f"{pad}let {cname(v)} := ({fn} {cname(v)} {t}) in\n" + self.block(rest, env2, fin, ind)
     if isinstance(s, ast.Assert):
         # assert x is not None  (x a NAME of type O:T): the rest runs with x : T; a failing assertion
         # is the value the spec names (assert_fail: a parameter of the result type)
@@ -352,16 +429,36 @@ def _translate_all(repo, specs, header=pysrc.HEADER):
     """pysrc.translate_all rejects every decorator but @override / @property before it calls Tr.function.
     For a spec with decorators_ok the listed decorators are accepted: find_function is made to hand out a
     copy of the FunctionDef without them (for the specs that ask for it, matched by class and function)."""
-    ok = {}
+    ok, inner = {}, {}
     for sp in specs:
         if sp.get("decorators_ok"):
             ok[(sp["file"], sp.get("cls"), sp["func"])] = set(sp["decorators_ok"])
-    if not ok:
+        if sp.get("inner_def"):
+            inner[(sp.get("cls"), sp["func"])] = sp["inner_def"]
+    if not ok and not inner:
         return _orig_translate_all(repo, specs, header)
     orig_find = pysrc.find_function
 
     def find(tree, cls, func):
         fdef = orig_find(tree, cls, func)
+        if (cls, func) in inner:
+            name = inner[(cls, func)]
+            body = [x for x in fdef.body
+                    if not (isinstance(x, ast.Expr) and isinstance(x.value, ast.Constant) and isinstance(x.value.value, str))]
+            if not (len(body) == 2 and isinstance(body[0], ast.FunctionDef) and body[0].name == name
+                    and isinstance(body[1], ast.Return) and isinstance(body[1].value, ast.Name)
+                    and body[1].value.id == name and len(fdef.args.args) == 1 and not fdef.decorator_list
+                    and [ast.unparse(d) for d in body[0].decorator_list] == [f"wraps({fdef.args.args[0].arg})"]):
+                raise Unsupported(f"{func} is not `def {name}(..): ..; return {name}` under @wraps")
+            w = copy.copy(body[0])
+            a = w.args
+            if a.args or a.posonlyargs or a.kwonlyargs or a.vararg is None or a.kwarg is None \
+                    or a.vararg.arg != "args" or a.kwarg.arg != "kwargs":
+                raise Unsupported(f"{name} does not take exactly (*args, **kwargs)")
+            w.args = ast.arguments(posonlyargs=[], args=[], vararg=None, kwonlyargs=[], kw_defaults=[], kwarg=None,
+                                   defaults=[])
+            w.decorator_list = []
+            return w
         accepted = set()
         for (f, c, fn), decs in ok.items():
             if c == cls and fn == func:
